@@ -90,15 +90,19 @@ def lake_build(targets, timeout=3000):
     return sh(["lake", "build"] + targets, cwd=LEAN, timeout=timeout)
 
 
-def audit(module):
-    """Return (rc, list of (theorem, [axioms]), raw)."""
-    rc, out, _ = sh(["lake", "env", "lean", "--run", "tools/Audit.lean", module], cwd=LEAN, timeout=900)
-    thms = []
+def audit(modules):
+    """Return (rc, list of (theorem, [axioms]), raw, modules that reported no theorem)."""
+    if isinstance(modules, str):
+        modules = [modules]
+    rc, out, _ = sh(["lake", "env", "lean", "--run", "tools/Audit.lean"] + list(modules), cwd=LEAN, timeout=1800)
+    thms, empty = [], []
     for line in out.splitlines():
         if line.startswith("THM "):
             parts = line.split()
             thms.append((parts[1], parts[2:]))
-    return rc, thms, out
+        elif line.startswith("MODULE ") and line.split()[2] == "0":
+            empty.append(line.split()[1])
+    return rc, thms, out, empty
 
 
 def grep_forbidden(paths):
